@@ -9,6 +9,7 @@ package main
 import (
 	"fmt"
 	mrand "math/rand"
+	"time"
 
 	"go.1password.io/spg"
 )
@@ -21,23 +22,23 @@ type Draw struct {
 }
 
 type Calib struct {
-	n    uint32
-	acc  map[uint32][]uint32
-	rej  []uint32
+	n     uint32
+	acc   map[uint32][]uint32
+	rej   []uint32
 	norej bool
 }
 
 type Enum struct {
-	Rng        *mrand.Rand
-	RejectProb float64 // probability of preceding a draw by rejected words
-	MaxRej     int
-	Chunk      []int // chunk plan for tapes
-	calib      map[uint32]*Calib
-	inCalib    bool
+	Rng         *mrand.Rand
+	RejectProb  float64 // probability of preceding a draw by rejected words
+	MaxRej      int
+	Chunk       []int // chunk plan for tapes
+	calib       map[uint32]*Calib
+	inCalib     bool
 	Unreachable []string
-	Policy     func(k int, n uint32) uint32 // index for draws beyond the plan (nil: 0)
-	MaxDraws   int                          // >0: abandon a run after this many draws
-	MaxProd    float64                      // >0: abandon a run once the product of its bounds exceeds this (its mass is below 1/MaxProd)
+	Policy      func(k int, n uint32) uint32 // index for draws beyond the plan (nil: 0)
+	MaxDraws    int                          // >0: abandon a run after this many draws
+	MaxProd     float64                      // >0: abandon a run once the product of its bounds exceeds this (its mass is below 1/MaxProd)
 }
 
 func NewEnum(seed int64) *Enum {
@@ -147,6 +148,20 @@ func minU32(a, b uint32) uint32 {
 }
 
 type cutSignal struct{}
+
+const cellDeadline = 90 * time.Second
+
+// withDeadline runs f and reports whether it finished in time (f keeps running otherwise; the caller exits the process).
+func withDeadline(f func(), d time.Duration) bool {
+	done := make(chan struct{})
+	go func() { f(); close(done) }()
+	select {
+	case <-done:
+		return true
+	case <-time.After(d):
+		return false
+	}
+}
 
 type RunOut struct {
 	Cut         bool // abandoned: the run went deeper than MaxProd allows (e.g. an unbounded redraw loop)
